@@ -184,3 +184,28 @@ F("fi-without-fid", ["C06"], (C_, "            fi: Optional[FI] = FI(org=self.or
 B("clientuid-threshold-le102", ["C06"], (C_, "        if self.version < 103:", "        if self.version <= 102:"))
 B("builder-inline-trnuid", ["C06"], (C_, "        stmtrq = STMTRQ(bankacctfrom=acct, inctran=inctran_)\n        trnuid = self.uuid\n        return STMTTRNRQ(trnuid=trnuid, stmtrq=stmtrq)", "        stmtrq = STMTRQ(bankacctfrom=acct, inctran=inctran_)\n        return STMTTRNRQ(trnuid=self.uuid, stmtrq=stmtrq)"))
 B("rename-local-acct", ["C06"], (C_, "        acct = CCACCTFROM(acctid=acctid)\n        stmtrq = CCSTMTENDRQ(ccacctfrom=acct, dtstart=dtstart, dtend=dtend)", "        account = CCACCTFROM(acctid=acctid)\n        stmtrq = CCSTMTENDRQ(ccacctfrom=account, dtstart=dtstart, dtend=dtend)"))
+
+# ---------------------------------------------------------------- C09 / dates ; C11 / C01 wire
+F("revert-D15-offset-dot", ["C09"], (T_, "(\\.(?P<gmt_offset_minutes>\\d\\d))?", "(.(?P<gmt_offset_minutes>\\d\\d))?", 2))
+F("hour-24", ["C09"], (T_, "(?P<hour>([0-1][0-9])|(2[0-3]))", "(?P<hour>([0-1][0-9])|(2[0-4]))", 2))
+F("day-00", ["C09"], (T_, "(?P<day>(0[1-9])|([1-2][0-9])|(3[0-1]))", "(?P<day>(0[0-9])|([1-2][0-9])|(3[0-1]))"))
+F("minute-69", ["C09"], (T_, "(?P<minute>[0-5][0-9])", "(?P<minute>[0-6][0-9])", 2))
+F("dt-unanchored", ["C09"], (T_, "                )?\n            )?\n        )?\n    )?\n    $\n", "                )?\n            )?\n        )?\n    )?\n"))
+F("ms-dot-unescaped", ["C09"], (T_, "                (\\.(?P<millisecond>[0-9]{3}))?\n                (\n                    \\[", "                (.(?P<millisecond>[0-9]{3}))?\n                (\n                    \\["))
+F("naive-both-dropped", ["C09", "C11"], (T_, "    utcoffset = value.utcoffset()\n    if utcoffset is None:\n        raise ValueError(f\"{value} is not timezone-aware\")\n", "    utcoffset = value.utcoffset() or datetime.timedelta(0)\n"), (T_, "    def _unconvert_datetime(self, value: datetime.datetime):\n        if not hasattr(value, \"utcoffset\") or value.utcoffset() is None:\n            msg = f\"'{value}' must be a timezone-aware {self.__type__} instance\"\n            raise ValueError(msg)\n", "    def _unconvert_datetime(self, value: datetime.datetime):\n"))
+B("naive-time-handler-only-dropped", ["C09", "C11"], (T_, "    def _unconvert_time(self, value: datetime.time):\n        if not hasattr(value, \"utcoffset\") or value.utcoffset() is None:\n            msg = f\"'{value}' must be a timezone-aware {self.__type__} instance\"\n            raise ValueError(msg)\n", "    def _unconvert_time(self, value: datetime.time):\n"))
+F("gmt-offset-timedelta", ["C09", "C03"], (U_, "    offset_minutes = math.copysign(60 * abs(hours) + minutes, hours)\n    return datetime.timedelta(minutes=offset_minutes)", "    return datetime.timedelta(hours=hours, minutes=minutes)"))
+F("offset-added", ["C09", "C03"], (T_, "        return (value - gmt_offset).replace(tzinfo=utils.UTC)", "        return (value + gmt_offset).replace(tzinfo=utils.UTC)"))
+F("ms-factor-100", ["C09", "C03"], (T_, '1000 * intmatches.pop("millisecond")', '100 * intmatches.pop("millisecond")'))
+F("sign-for-nonpositive", ["C09"], (T_, '    sign = "-" if offset_mins < 0 else "+"', '    sign = "-" if offset_mins <= 0 else "+"'))
+F("ms-two-digits", ["C09", "C11"], (T_, 'return f"{value_bumped.strftime(format)}.{ms:03d}[{tz}]"', 'return f"{value_bumped.strftime(format)}.{ms:02d}[{tz}]"'))
+F("no-match-not-rejected", ["C09"], (T_, "        if match is None:\n            msg = f\"'{value}' does not conform to OFX formats for {self.__type__}\"\n            raise OFXSpecError(msg)\n", "        if match is None:\n            match = self.regex.match(value[:8])\n"))
+B("gmt-offset-sign-product", ["C09"], (U_, "    offset_minutes = math.copysign(60 * abs(hours) + minutes, hours)\n", "    offset_minutes = (60 * abs(hours) + minutes) * (-1 if hours < 0 else 1)\n"))
+F("revert-D10-decimal-str", ["C11"], (T_, "        if not value.is_finite():\n            raise ValueError(f\"'{value}' is not a finite number\")\n        return format(value, \"f\")", "        return str(value)"))
+F("decimal-nan-allowed", ["C11"], (T_, "        if not value.is_finite():\n            raise ValueError(f\"'{value}' is not a finite number\")\n", ""))
+F("revert-D11-no-escape", ["C11", "C01"], (U_, "            elem.tag, saxutils.escape(elem.text or \"\"), elem.tail or \"\"", "            elem.tag, elem.text or \"\", elem.tail or \"\""))
+F("bool-writer-constant", ["C11"], (T_, "        return {v: k for k, v in self.mapping.items()}[value]", "        return {True: \"Y\", False: \"F\"}[value]"))
+F("integer-writer-repr", ["C11"], (T_, "        value = self.enforce_length(value)\n        return str(value)", "        value = self.enforce_length(value)\n        return f\"{value:,}\""))
+F("datetime-writer-isoformat", ["C11"], (T_, '        return format_datetime("%Y%m%d%H%M%S", value)', '        return format_datetime("%Y-%m-%dT%H:%M:%S", value)'))
+F("escape-html-quotes", ["C01"], (U_, "from xml.sax import saxutils\n", "from xml.sax import saxutils\nimport html\n"), (U_, "saxutils.escape(elem.text or \"\")", "html.escape(elem.text or \"\")"))
+B("escape-html-noquote", ["C01", "C11"], (U_, "from xml.sax import saxutils\n", "from xml.sax import saxutils\nimport html\n"), (U_, "saxutils.escape(elem.text or \"\")", "html.escape(elem.text or \"\", quote=False)"))
